@@ -744,6 +744,12 @@ def mon_c07(rec):
         raise HarnessError("labelling step not observed")
     call = calls[0]
     table = np.asarray(call["table"], dtype=np.float64)
+    if len(calls) != 1 or table.shape != (d.Tp, d.K):
+        # the labelling step was not handed the whole table in one call: judge against the reference table of
+        # the model the round fitted
+        st = last["opt"]["out"]
+        tab, _ = ref_table(d.X, [c.stacked_data_mean for c in st.clusters], [c.train_inverse for c in st.clusters])
+        table = -tab
     if not np.all(np.isfinite(table)):
         return [("__nonfinite__", "skip")]
     labels = stacked_labels(rec)
